@@ -479,7 +479,7 @@ def scan_now(asm):
     n_want = sum(want.values())
 
     def show(counter):
-        prs = sorted(f"{label[a]} / {label[b]}" + (f" x{k}" if k > 1 else "") for (a, b), k in counter.items())
+        prs = sorted(" / ".join(sorted((label[a], label[b]))) + (f" x{k}" if k > 1 else "") for (a, b), k in counter.items())
         return "[" + "; ".join(prs[:6]) + ("; ..." if len(prs) > 6 else "") + "]"
 
     if (got_pairs is None) != (not want) or got != want:
@@ -579,12 +579,15 @@ RESCAN_BASES = (
 
 
 def rescan_sequences(state, depth, full):
-    """every sequence of 1..depth edits from the menus (each menu taken at the state its predecessors lead to)"""
-    for st in step_menu(state, full):
-        yield [st]
-        if depth > 1:
-            for rest in rescan_sequences(model_step(state, st), depth - 1, full):
-                yield [st, *rest]
+    """every sequence of 1..depth edits from the menus (each menu taken at the state its predecessors lead to), shortest first"""
+    level = [([], state)]
+    for _ in range(depth):
+        nxt = []
+        for steps, st in level:
+            for step in step_menu(st, full):
+                yield [*steps, step]
+                nxt.append(([*steps, step], model_step(st, step)))
+        level = nxt
 
 
 def rescan_cases(tier, rng):
